@@ -572,9 +572,10 @@ static bool mutate(Tree &root, int kind, Rng &rng)
         if (c.empty()) return false;
         e = c[rng.below(c.size())]; e->attrs.erase(e->attrs.begin() + rng.below(e->attrs.size())); return true; }
     case M_ATTR_GARBLE: {
-        std::vector<Tree *> c; for (auto *x : els) if (!x->attrs.empty()) c.push_back(x);
+        std::vector<std::pair<Tree *, size_t>> c;
+        for (auto *x : els) for (size_t a = 0; a < x->attrs.size(); a++) if (x->attrs[a].first != "xmlns") c.emplace_back(x, a);
         if (c.empty()) return false;
-        e = c[rng.below(c.size())]; e->attrs[rng.below(e->attrs.size())].second = garbleValue(rng); return true; }
+        auto pick = c[rng.below(c.size())]; pick.first->attrs[pick.second].second = garbleValue(rng); return true; }
     case M_ATTR_RENAME: {
         std::vector<Tree *> c; for (auto *x : els) if (!x->attrs.empty()) c.push_back(x);
         if (c.empty()) return false;
@@ -643,7 +644,7 @@ static bool processDoc(const ClassEntry &c, const QByteArray &xml, const std::st
 {
     r.cin = canonPlain(xml);
     if (r.cin == "none") { stat("documents_not_wellformed"); return false; }
-    printf("I %s %s %s\n", c.name.c_str(), what.c_str(), xml.left(400).toHex().constData()); fflush(stdout);
+    printf("I %s %s %s\n", c.name.c_str(), what.c_str(), xml.left(160).toHex().constData()); fflush(stdout);
     bool wf = false;
     r.accepted = runReal(c, xml, r.out, r.vals, wf);
     if (!wf) { stat("documents_not_wellformed"); return false; }
@@ -689,18 +690,19 @@ int main(int argc, char **argv)
     for (size_t k = 0; k < table.size(); k++) {
         unsigned n = unsigned(strtoul(counts[k].c_str(), nullptr, 10));
         for (unsigned i = 0; i < n; i++) indices[k].push_back(i);
-        unsigned extra = n <= 1 ? 0 : (thorough ? 3000 : 150);
+        unsigned extra = n <= 1 ? 0 : (thorough ? 1000 : 150);
         for (unsigned j = 0; j < extra; j++) indices[k].push_back(1000 + rng.below(1u << 30));
         for (unsigned i : indices[k]) { ops.push_back("codec-val " + table[k].name + " " + std::to_string(i)); ops.push_back("codec-gen " + table[k].name + " " + std::to_string(i)); }
     }
     auto gen = askDriver(ops);
 
-    const int mutationsPerDoc = thorough ? 10 : 3;
+    const int mutationsPerDoc = thorough ? 6 : 3;
     size_t g = 0;
     std::vector<std::string> fullDoc(table.size());  // index 256 (everything present) of each class, for cross-class feeding
     for (size_t k = 0; k < table.size(); k++) {
         const ClassEntry &c = table[k];
         stat("classes_modelled");
+        corr("codec-reset " + c.name, "ok");
         for (unsigned i : indices[k]) {
             const std::string valText = gen[g++], treeText = gen[g++];
             Vals v; Tree doc;
@@ -759,14 +761,47 @@ int main(int argc, char **argv)
             }
         }
     }
+    // (e) spelling sweep: every attribute value and every text node of the fullest document of each class replaced by every
+    //     pool value in turn (alternative boolean spellings, integers at and beyond the bounds, blanks, unknown enum names, ...)
+    for (size_t k = 0; k < table.size(); k++) {
+        Tree doc; if (!treeOfCanon(fullDoc[k], doc)) continue;
+        corr("codec-reset " + table[k].name, "ok");
+        std::vector<Tree *> els; collect(doc, els);
+        std::vector<QString> values;
+        for (auto *p : NEAR_POOL) values.push_back(QString::fromUtf8(p));
+        for (auto *p : VALUE_POOL) values.push_back(QString::fromUtf8(p));
+        for (size_t e = 0; e < els.size(); e++) {
+            for (size_t a = 0; a < els[e]->attrs.size(); a++) {
+                if (els[e]->attrs[a].first == "xmlns") continue;
+                for (auto &val : values) {
+                    Tree mt = doc; std::vector<Tree *> me; collect(mt, me);
+                    me[e]->attrs[a].second = val;
+                    DocResult r;
+                    if (processDoc(table[k], xmlOfTree(mt), "sweep-attr", r)) stat("spelling_sweep_documents");
+                }
+            }
+            for (size_t c = 0; c < els[e]->kids.size(); c++) {
+                if (!els[e]->kids[c].isText) continue;
+                for (auto &val : values) {
+                    if (val.isEmpty()) continue;
+                    Tree mt = doc; std::vector<Tree *> me; collect(mt, me);
+                    me[e]->kids[c].name = val;
+                    DocResult r;
+                    if (processDoc(table[k], xmlOfTree(mt), "sweep-text", r)) stat("spelling_sweep_documents");
+                }
+            }
+        }
+    }
     // (d) every parser on the documents of every other class
-    for (size_t k = 0; k < table.size(); k++)
+    for (size_t k = 0; k < table.size(); k++) {
+        corr("codec-reset " + table[k].name, "ok");
         for (size_t j = 0; j < table.size(); j++) {
             if (j == k) continue;
             Tree doc; if (!treeOfCanon(fullDoc[j], doc)) continue;
             DocResult r;
             if (processDoc(table[k], xmlOfTree(doc), "foreign:" + table[j].name, r)) stat("foreign_class_documents");
         }
+    }
 
     // measured: toXml definitions in the library vs classes modelled
     {
